@@ -622,6 +622,34 @@ func (s *session) exec(args []string) string {
 	case "close":
 		s.closeTree()
 		return "ok"
+	case "loaddb": // loaddb {k:v k:v ...}: a fresh MemDB filled with an externally encoded image, then Load()
+		img := strings.Join(args[1:], " ")
+		img = strings.TrimSuffix(strings.TrimPrefix(img, "{"), "}")
+		s.closeTree()
+		if s.backend != nil {
+			s.backend.Close()
+		}
+		m := idb.NewMemDB()
+		if img != "" {
+			for _, tok := range strings.Fields(img) {
+				kv := strings.SplitN(tok, ":", 2)
+				k, _ := hex.DecodeString(kv[0])
+				v, _ := hex.DecodeString(kv[1])
+				if v == nil {
+					v = []byte{}
+				}
+				m.Set(k, v)
+			}
+		}
+		s.backend = m
+		s.rec = newRecDB(m)
+		s.cfg.db = "mem"
+		s.tree = s.newTree()
+		v, err := s.tree.Load()
+		if err != nil {
+			return "err"
+		}
+		return fmt.Sprintf("ver=%d", v)
 	case "dump":
 		s.ensureBackend()
 		var sb strings.Builder
